@@ -1,36 +1,34 @@
 CONSTANTS
   Server = {1, 2, 3}
   Campaigners = {1, 2, 3}
-  MaxTerm = 1
-  MaxProposals = 0
-  MaxCrashes = 1
-  MaxDrops = 0
-  MaxDups = 0
-  MaxHeartbeats = 0
-  MaxLog = 2
-  MaxNet = 6
+  MaxTerm = 1000000
+  MaxProposals = 1000000
+  MaxCrashes = 1000000
+  MaxDrops = 1000000
+  MaxDups = 1000000
+  MaxHeartbeats = 1000000
+  MaxLog = 1000000
+  MaxNet = 1000000
   MaxEnts = 0
   LossySend = FALSE
-  SimDepth = 0
   W_CommitAnyTerm = FALSE
   W_VoteIgnoreVoted = FALSE
   W_VoteIgnoreLog = FALSE
-  W_NoPersistVote = TRUE
+  W_NoPersistVote = FALSE
   W_AppendAlwaysTruncates = FALSE
   W_HeartbeatCommitUnbounded = FALSE
   W_QuorumMinusOne = FALSE
   PreVote = FALSE
   W_PreVoteRespCountsAsVote = FALSE
-  ConfChange = FALSE
+  ConfChange = TRUE
   InitVoters = {1, 2, 3}
   AddVoters = {}
   RemoveVoters = {}
-  MaxConfChanges = 0
-  MaxConfRefusals = 0
+  MaxConfChanges = 1000000
+  MaxConfRefusals = 1000000
   W_ConfChangeNoPendingCheck = FALSE
   W_AddedVoterCaughtUp = FALSE
-INIT Init
-NEXT Next
-CONSTRAINT NetBound
-VIEW view
-INVARIANT EmitAttack
+INIT TraceInit
+NEXT TraceNext
+POSTCONDITION TracePost
+INVARIANTS ElectionSafety LogMatching StateMachineSafety LeaderCompleteness
